@@ -138,8 +138,11 @@ TStep ==
   /\ StepInvoke(Ev.s, Ev.upd, Ev.uid)
   /\ Adv
 
-RowBad(e) == \/ DOMAIN e.vals # DOMAIN val
-             \/ \E v \in DOMAIN e.vals : e.vals[v] # val[v]
+\* a row holds exactly the variables flagged for emission (the recorded
+\* configuration lists those that are not), with their committed values
+EmitOff == SeqToSet(Traces[tid][1].emit_off)
+RowBad(e) == \/ DOMAIN e.vals # DOMAIN val \ EmitOff
+             \/ \E v \in DOMAIN e.vals \cap DOMAIN val : e.vals[v] # val[v]
 
 RowDue == emitStep = 1 \/ emitNext <= now
 
